@@ -77,9 +77,70 @@ type c15Oracle struct {
 	ign        []string // printed (path,isdir) -> bool entries
 	ignSeen    map[string]bool
 
+	chains       []c15Chain // per chart level: the Chart.yaml / requirements.yaml contents in file order
 	ignoredFiles []string
 	term         string
 	in           *c15Interner
+}
+
+type c15Chain struct{ chartYamls, reqYamls []string }
+
+// addLevel registers the files one call of LoadFiles will see (names as LoadFiles gets them,
+// data BOM-trimmed) and, recursively, the levels of its subcharts, so that the metadata
+// merges can be tabulated in exactly the order LoadFiles performs them.
+func (o *c15Oracle) addLevel(files []c15File, depth int) {
+	if depth > 6 {
+		return
+	}
+	var ch c15Chain
+	subs := map[string][]c15File{}
+	var order []string
+	for _, f := range files {
+		o.addFile(f.Name, f.Data)
+		switch {
+		case f.Name == "Chart.yaml":
+			ch.chartYamls = append(ch.chartYamls, string(f.Data))
+		case f.Name == "requirements.yaml":
+			ch.reqYamls = append(ch.reqYamls, string(f.Data))
+		case strings.HasPrefix(f.Name, "charts/"):
+			fname := strings.TrimPrefix(f.Name, "charts/")
+			cname := strings.SplitN(fname, "/", 2)[0]
+			if _, ok := subs[cname]; !ok {
+				order = append(order, cname)
+			}
+			subs[cname] = append(subs[cname], c15File{Name: fname, Data: f.Data})
+		}
+	}
+	o.chains = append(o.chains, ch)
+	for _, cname := range order {
+		fs := subs[cname]
+		if path.Ext(cname) == ".tgz" {
+			if afs, err := loader.LoadArchiveFiles(bytes.NewReader(fs[0].Data)); err == nil {
+				var lvl []c15File
+				for _, af := range afs {
+					lvl = append(lvl, c15File{Name: af.Name, Data: af.Data})
+				}
+				o.addLevel(lvl, depth+1)
+			}
+			continue
+		}
+		var lvl []c15File
+		for _, f := range fs {
+			parts := strings.SplitN(f.Name, "/", 2)
+			if len(parts) == 2 {
+				lvl = append(lvl, c15File{Name: parts[1], Data: f.Data})
+			}
+		}
+		o.addLevel(lvl, depth+1)
+	}
+}
+
+func c15Trimmed(files []c15File) []c15File {
+	out := make([]c15File, len(files))
+	for i, f := range files {
+		out[i] = c15File{Name: f.Name, Data: bytes.TrimPrefix(f.Data, c15Bom)}
+	}
+	return out
 }
 
 func newC15Oracle() *c15Oracle {
@@ -253,39 +314,51 @@ func (o *c15Oracle) close() {
 	// merges the model can ask for: every Chart.yaml / requirements.yaml content onto the
 	// empty value (first Chart.yaml of a level, or requirements.yaml without one), then
 	// requirements.yaml contents (and, with allPairs, duplicate Chart.yaml files) onto those
-	frontier := map[string]*chart.Metadata{c15CoqMeta(empty): empty}
 	done := map[string]bool{}
-	// four rounds: Chart.yaml, a duplicate, requirements.yaml, a duplicate
-	for round := 0; round < 4 && len(o.metas) < 300; round++ {
-		next := map[string]*chart.Metadata{}
-		for _, mk := range sortedKeys(frontier) {
-			m := frontier[mk]
-			for _, d := range datas {
-				if round > 0 && !o.allPairs && !o.reqDatas[d] {
-					continue
-				}
-				key := mk + "\x00" + d
-				if done[key] {
-					continue
-				}
-				done[key] = true
-				r := c15Merge(m, []byte(d))
-				if r == nil {
-					mergeRecs = append(mergeRecs, mergeRec{mk, d, ""})
-					continue
-				}
+	addRec := func(m *chart.Metadata, d string) *chart.Metadata {
+		mk := c15CoqMeta(m)
+		o.addMeta(m)
+		key := mk + "\x00" + d
+		r := c15Merge(m, []byte(d))
+		if !done[key] {
+			done[key] = true
+			if r == nil {
+				mergeRecs = append(mergeRecs, mergeRec{mk, d, ""})
+			} else {
 				mergeRecs = append(mergeRecs, mergeRec{mk, d, c15CoqMeta(r)})
-				o.addMeta(r)
-				x := c15DefaultAPI(r)
-				o.addMeta(x)
-				if o.reqDatas[d] {
-					next[c15CoqMeta(r)] = r // requirements.yaml: no apiVersion defaulting afterwards
-				} else {
-					next[c15CoqMeta(x)] = x
-				}
 			}
 		}
-		frontier = next
+		if r != nil {
+			o.addMeta(r)
+			o.addMeta(c15DefaultAPI(r))
+		}
+		return r
+	}
+	// every content onto the empty value (a safety net for single-file levels) ...
+	for _, d := range datas {
+		addRec(empty, d)
+	}
+	// ... and the exact merge chain of every chart level the loaders will see
+	for _, chain := range o.chains {
+		m := empty
+		for _, d := range chain.chartYamls {
+			r := addRec(m, d)
+			if r == nil {
+				m = nil
+				break
+			}
+			m = c15DefaultAPI(r)
+		}
+		if m == nil {
+			continue
+		}
+		for _, d := range chain.reqYamls {
+			r := addRec(m, d)
+			if r == nil {
+				break
+			}
+			m = r
+		}
 	}
 	// sanitised and dependency-stripped variants
 	sanOf := map[string]string{}
